@@ -300,7 +300,7 @@ func C14() *vk.Check {
 		Rule: "round trip x -> encode -> decode -> x with exact consumption (sentinel bytes / following instruction). (A) integers: asm.writeSize(n) (hook VerifWriteSize) decoded by vm.ParseLoad/ParseCroak for every n in the tier's set — thorough: ALL 2^32 values; quick: every n within 4096 of each power of two and of 0/2^32-1, a stride sweep of 2^20 values and 2^20 PRNG values — plus CATCH leg, vm.NewLine encoder, independent decoder and disassembler on a subset containing all boundaries; " +
 			"(B) symbols: every length 1..255 x 5 content classes x 9 string-carrying opcodes (both argument positions) through vm.NewLine and asm.writeSym; (C) PRNG programs of 1..60 instructions over all 12 opcodes compared across vm.Parse*, ParseHandler.ToString (parsed back), the harness's independent decoder and asm.Parse(ToString(bytes))==bytes for programs in the assembler's grammar. " +
 			"distinct = enumerated values are distinct by construction; programs by hash of their listing; non-trivial = every case (each exercises at least one argument-carrying instruction).",
-		Assumptions: []string{"the harness decoder (codec.Decode) is written from the format description and is the trusted reference", "NOOP (opcode 0) is not one of the twelve instructions and is not generated"},
+		Assumptions:    []string{"the harness decoder (codec.Decode) is written from the format description and is the trusted reference", "NOOP (opcode 0) is not one of the twelve instructions and is not generated"},
 		MinEvaluations: 100000,
 		Shards:         func(string) int { return 16 },
 		Run:            runC14,
